@@ -622,8 +622,13 @@ def rand_int(rng, signed: bool) -> int:
         v = rng.getrandbits(rng.randint(1, 20))
     elif r < 0.9:
         v = max(0, (1 << rng.randint(1, 200)) + rng.choice([-2, -1, 0, 1]))
-    else:
+    elif r < 0.95:
         v = rng.choice([0, 1, 2, 3])
+    else:
+        # sparse values: a high bit, a long run of zeros, then low-order content (an address, a counter next to a flag bit)
+        k = rng.choice([66, 70, 96, 100, 128, 200])
+        j = rng.randint(1, k - 34)
+        v = (1 << k) + rng.choice([rng.getrandbits(j) | (1 << (j - 1)), (1 << j) - 1, 1 << (j - 1), 1])
     if signed and rng.random() < 0.5:
         v = -v
     return v
@@ -650,6 +655,8 @@ def gen_seq(ctx):
     rng = ctx.rng
     r = rng.random()
     n = rng.randint(1, 4) if r < 0.3 else rng.randint(5, 12) if r < 0.9 else rng.randint(13, 40)
+    if rng.random() < 0.03:
+        n = rng.choice([63, 64, 65, 100, 256, 300])                 # many codes in one call (where a bulk decoder could take over)
     uniform = rng.random() < 0.2
     one = rng.choice(CODES)
     style = rng.random()
